@@ -651,7 +651,21 @@ def case_generated(case, col=None):
     logging.disable(logging.CRITICAL)
     try:
         lines, _ = regmodel.render(model)
-        ureg = pint.UnitRegistry(lines, non_int_type=env.NIT[nit], auto_reduce_dimensions=case.get("autoreduce", False))
+        path = case.get("path", "lines")
+        if path == "lines" or case.get("autoreduce"):
+            ureg = pint.UnitRegistry(lines, non_int_type=env.NIT[nit], auto_reduce_dimensions=case.get("autoreduce", False))
+        else:
+            # the same definitions through another loading path (file, @import, on-disk cache incl. one that another definition set has used)
+            import shutil
+            import tempfile
+
+            from .c10 import load
+
+            work = tempfile.mkdtemp(prefix="vf_gen_")
+            try:
+                ureg = load(model, path, nit, work)
+            finally:
+                shutil.rmtree(work, ignore_errors=True)
         res = regmodel.resolve(model)
         names = sorted(res)
         if col is not None:
@@ -672,7 +686,8 @@ def case_generated(case, col=None):
 def run_generated(task, tier, seed, col):
     from ..gen import regmodel
 
-    strat = st.builds(lambda m, nit, ar: {"model": m, "nit": nit, "autoreduce": ar}, regmodel.models(with_offset=False), st.sampled_from(["float", "Fraction", "Decimal"]), st.booleans())
+    strat = st.builds(lambda m, nit, ar, pa: {"model": m, "nit": nit, "autoreduce": ar, "path": pa}, regmodel.models(with_offset=False), st.sampled_from(["float", "Fraction", "Decimal"]), st.booleans(),
+                      st.sampled_from(["lines", "file", "import", "cache", "cache_lines", "cache_import"]))
     hyp_search(col, strat, lambda c: case_generated(c, col), max_examples=60 if tier == "quick" else 1500, seed=seed * 79 + task["shard"], shrink_budget_s=60)
 
 
